@@ -10,6 +10,15 @@ Theorem C05_holds : forall i : input, wf i = true -> finding_F14 i = false -> sp
 Proof. exact model_meets_spec. Qed.
 Print Assumptions C05_holds.
 
+(* The correspondence also runs programs on cases configured with a RunTest factory of their own (class
+   attribute run_tests_with, the runTest= constructor argument, @run_test_with; RunTest subclasses and functions
+   with explicit / star / keyword-only / ** signatures, functools.partial, callable objects, bound methods,
+   factories written for the API before last_resort - Model.Run.factory).  The Gallina input leaves the
+   configuration out: the run of such a case IS the run with the default RunTest. *)
+Theorem C05_factory_irrelevant : forall r p s, run_from_runner r p s = run_from p s.
+Proof. exact factory_irrelevant. Qed.
+Print Assumptions C05_factory_irrelevant.
+
 (* ... and inside F14 (the test attaches a detail under a base name a generated detail may hold:
    TestCase.addDetail replaces the generated traceback) the full statement is false of the model *)
 Theorem C05_refuted_F14 : exists i, wf i = true /\ finding_F14 i = true /\ spec_okb i (model i) = false.
